@@ -260,6 +260,15 @@ func recordHist(c *lib.Ctx, tag string, cfg exchCfg, res exchResult, limit int64
 		c.Count(tag + ":exch:err:" + errKind(res.err))
 		return lastFailed{}
 	}
+	if !f.got && histErr && res.prev1 == res.prev0 {
+		// the histogram was asked before anything was committed (not the code as modelled: the model's answer
+		// differs; no clause of a property is concerned)
+		c.Count(tag + ":exch:hist-error-before-commit")
+		c.Emit(fmt.Sprintf("cli.hexch tr=%s il=true nts=false dl=true filt=424242 %s ref=same prev=%s now=%d ctx1=%d ev=%s hist=%d",
+			res.tr, res.hdr, prevStr(res.prev0, reference), res.now0, res.now0, evIP(p, res.sent, res.recvAt, true, 48, "1"), limit),
+			"err hist prev="+prevStr(res.prev1, reference))
+		return lastFailed{}
+	}
 	if !f.got {
 		c.Fail("C03:filter-tuple", "a filter is configured but was not called for an evaluated response", []string{op0}, nil)
 		return lastFailed{}
